@@ -54,7 +54,7 @@ var knownOpen = map[string]bool{
 	// m["self"] = m) is handed to the fmt package - string operators, the index / argument / operand printed in an
 	// error message, inspect / debug, pathFor's ID - or walked by pathFor's own recursion: fatal stack overflow.
 	// Pool values: selfslice selfmap selfkids selfid selfptr tselfarr tselfhash (pv.Fatal: rendered in a child
-	// process). Witness + fix: /tmp/c04hunt/cyclic-value/{main.go,fix.diff}. Delete these 9 lines once it is fixed.
+	// process). Witness + fix: /tmp/c04hunt/cyclic-value/{main.go,fix.diff}. Delete these 10 lines once it is fixed.
 	"stringsOperator@compiler.go: fatal error: stack overflow":       true,
 	"arrayOperator@compiler.go: fatal error: stack overflow":         true,
 	"evalAccessIndex@compiler.go: fatal error: stack overflow":       true,
@@ -62,6 +62,7 @@ var knownOpen = map[string]bool{
 	"evalCallExpression@compiler.go: fatal error: stack overflow":    true,
 	"helpers/debug.Inspect@inspect.go: fatal error: stack overflow":  true,
 	"helpers/paths.PathFor@path_for.go: fatal error: stack overflow": true,
+	"write@compiler.go: fatal error: stack overflow":                 true, // an ast.Printable that contains itself (selfprintable), printed with the HTML escaper
 	"helpers/paths.byField@path_for.go: fatal error: stack overflow": true,
 	"fatal error: stack overflow [random program, any site]":         true, // the runtime prints 100 frames: in a deep random program the frame next to fmt may be elided
 
@@ -636,7 +637,7 @@ var widePool = []*pv{
 	w("printable", "struct", func() interface{} { return Pr{V: []interface{}{1, "<b>", nil}} }),
 	w("ifcself", "struct", func() interface{} { return IfcSelf{} }),
 	w("ifcchain", "struct", func() interface{} { return IfcChain{N: 3000} }),
-	w("strhtml", "struct", func() interface{} { return StrHTML{} }),
+	w("stringerhtmler", "struct", func() interface{} { return StrHTML{} }),
 	w("anysprintable", "slice", func() interface{} {
 		return []interface{}{Pr{}, IfcSelf{}, IfcChain{N: 5}, StrHTML{}, Hr{"h"}, Str{"s"}}
 	}),
